@@ -296,6 +296,9 @@ def random_pda(rng, nmax=3, tmax=6, markers=False):
             u = rng.choice(Gamma + [eps, eps])
             v = rng.choice(Gamma + [eps, eps])
         delta.setdefault((p, a, u), set()).add((q, v))
+    if rng.random() < 0.35:   # fan-out: one (state, input, pop) key with several targets, another key hitting only one of them
+        for key in list(delta)[:2]:
+            delta[key].add((rng.choice(Q), rng.choice(Gamma + [eps, eps])))
     r = rng.random()
     F = [] if r < 0.08 else list(Q) if r < 0.2 else [q for q in Q if rng.random() < 0.5]
     if rng.random() < 0.5:   # a guaranteed accepting computation on a non-empty word that leaves a symbol on the stack
@@ -422,3 +425,56 @@ def chain_dfa(rng):
     F = sorted({names[rng.randint(0, 1)], names[k]} | ({names[rng.randint(0, k)]} if rng.random() < 0.3 else set()))
     rng.shuffle(delta)
     return {'Q': Q, 'Sigma': Sigma, 'delta': delta, 'q0': names[0], 'F': F}
+
+
+def fanout_pda(rng):
+    """no stack: q0 -a-> {p, q}, q0 -b-> {p, r}, q -c-> f, r -d-> f (language {ac, bd}); one step reaches two NEW configurations and
+    another step of the same level reaches only one of them"""
+    eps = rng.choice(['_', 'ε', ''])
+    names = rng.choice([['q0', 'p', 'q', 'r', 'f'], ['s0', 's1', 's2', 's3', 's4'], ['A', 'B', 'C', 'D', 'E']])
+    q0, p, q, r, f = names
+    a, b, c, d = rng.choice([('a', 'b', 'c', 'd'), ('a', 'b', 'a', 'b'), ('0', '1', '0', '1')])
+    delta = {(q0, a, eps): {(p, eps), (q, eps)}, (q0, b, eps): {(p, eps), (r, eps)}}
+    delta.setdefault((q, c, eps), set()).add((f, eps))
+    delta.setdefault((r, d, eps), set()).add((f, eps))
+    dl = [[x, y, u, sorted([list(t) for t in T])] for (x, y, u), T in delta.items()]
+    rng.shuffle(dl)
+    return {'Q': names, 'Sigma': sorted({a, b, c, d}), 'Gamma': ['x'], 'delta': dl, 'q0': q0, 'F': [f], 'eps': eps, 'dd': True}
+
+
+def big_subset_nfa(rng):
+    """two reachable subsets with 13 states each that share their 12 smallest names"""
+    k = rng.randint(12, 14)
+    pre = rng.choice(['a', 'n', 'q'])
+    common = ['%s%02d' % (pre, i) for i in range(k)]
+    z1, z2 = rng.choice([('z1', 'z2'), ('zz', 'zy'), ('y', 'z')])
+    q0 = 'start0' if pre != 's' else 'init'
+    eps = rng.choice(['_', 'ε'])
+    delta = [[q0, 'a', sorted(common + [z1])], [q0, 'b', sorted(common + [z2])]]
+    if rng.random() < 0.5:
+        delta.append([z1, 'a', [z1]])
+    if rng.random() < 0.5:
+        delta.append([common[0], eps, [common[1]]])
+    F = [rng.choice([z1, z2])]
+    return {'Q': [q0] + common + [z1, z2], 'Sigma': ['a', 'b'], 'delta': delta, 'q0': q0, 'F': F, 'eps': eps, 'dd': True}
+
+
+def counter_dfa(rng):
+    """a modulo-n counter with few accepting states: telling all states apart needs about n/2 refinement rounds"""
+    n = rng.randint(4, 9)
+    names = rng.choice([['q%d' % i for i in range(n)], ['s%d' % (i * 7 % 10 + i) for i in range(n)], list('ABCDEFGHIJ')[:n],
+                        ['q%d' % (i + 5) for i in range(n)]])
+    names = list(dict.fromkeys(names))
+    if len(names) < n:
+        names = ['q%d' % i for i in range(n)]
+    order = list(range(n))
+    rng.shuffle(order)
+    Sigma = rng.choice([['a'], ['a', 'b']])
+    delta = []
+    for i in range(n):
+        delta.append([names[i], 'a', names[(i + 1) % n]])
+        if len(Sigma) > 1:
+            delta.append([names[i], 'b', names[i] if rng.random() < 0.7 else names[(i + 2) % n]])
+    rng.shuffle(delta)
+    F = [names[rng.randrange(n)]] + ([names[rng.randrange(n)]] if rng.random() < 0.2 else [])
+    return {'Q': [names[i] for i in order], 'Sigma': Sigma, 'delta': delta, 'q0': names[0], 'F': sorted(set(F))}
